@@ -283,3 +283,99 @@ theorem ctx_never_cancelled {p : Params} {s : State} (h : Reach p s) : ∀ i, s.
     | tickWall => exact ih
 
 end Eru.Lock.Redis
+
+namespace Eru.Lock.Redis
+
+/-! ### the schedule replay of the oracle only visits reachable states -/
+
+theorem reach_wall_to {p : Params} {s : State} (h : Reach p s) (w : Nat) (hw : s.wall ≤ w) :
+    Reach p { s with wall := w } := by
+  have := reach_wall_ticks h (w - s.wall)
+  have e : s.wall + (w - s.wall) = w := by omega
+  rw [e] at this; exact this
+
+theorem runOut_reach {p : Params} {s : State} (h : Reach p s) (i : Nat) : Reach p (runOut s i).1 := by
+  unfold runOut
+  split
+  · rename_i m tok na dl hcl
+    have r1 := reach_wall_to h (max s.wall dl) (Nat.le_max_left _ _)
+    exact Reach.step r1 (Step.giveup _ i m tok na dl hcl (Nat.le_max_right _ _))
+  · exact h
+
+theorem enter_reach {p : Params} (hp : 0 < p.wait) {s : State} (h : Reach p s) (i : Nat) (m : Mode)
+    (hi : s.cl i = .idle) : Reach p (enter p s i m) := by
+  have r1 := Reach.step h (Step.begin s i m hi)
+  have hc : (begin p s i m).cl i = .trying m s.nextTok s.wall (s.wall + p.wait) := by simp [begin, setCl]
+  exact Reach.step r1 (Step.attempt _ i m s.nextTok s.wall (s.wall + p.wait) hc (Nat.le_refl _)
+    (by show s.wall < s.wall + p.wait; omega))
+
+/-- **exec_reach.**  Every command of a schedule is a finite sequence of `Step`s: the states the
+    oracle's replay goes through are reachable states of the transition system the theorems are about. -/
+theorem exec_reach {p : Params} (hp : 0 < p.wait) {s : State} (h : Reach p s) (c : Cmd) :
+    Reach p (exec p s c).1 := by
+  cases c with
+  | lock i =>
+    simp only [exec]
+    split
+    · rename_i hi; exact runOut_reach (enter_reach hp h i .lock hi) i
+    · exact h
+  | tryLock i =>
+    simp only [exec]
+    split
+    · rename_i hi; exact enter_reach hp h i .try hi
+    · exact h
+  | unlock i =>
+    simp only [exec]
+    split
+    · rename_i tok hi; exact Reach.step h (Step.release s i tok hi)
+    · exact h
+  | ff dt => exact reach_ticks h dt
+  | lockAsync i =>
+    simp only [exec]
+    split
+    · rename_i hi; exact enter_reach hp h i .lock hi
+    · exact h
+  | join i =>
+    simp only [exec]
+    split
+    · rename_i m tok na dl hi
+      split
+      · rename_i hlt
+        have r1 := reach_wall_to h (max s.wall na) (Nat.le_max_left _ _)
+        exact runOut_reach (Reach.step r1 (Step.attempt _ i m tok na dl hi (Nat.le_max_right _ _) hlt)) i
+      · have r1 := reach_wall_to h (max s.wall dl) (Nat.le_max_left _ _)
+        exact Reach.step r1 (Step.giveup _ i m tok na dl hi (Nat.le_max_right _ _))
+    · exact h
+  | observe i => exact h
+
+/-- all states of a replay are reachable -/
+def replayStates (p : Params) : State → List Cmd → List State
+  | _, [] => []
+  | s, c :: cs => (exec p s c).1 :: replayStates p (exec p s c).1 cs
+
+theorem replay_reach {p : Params} (hp : 0 < p.wait) : ∀ (cs : List Cmd) (s : State), Reach p s →
+    ∀ s' ∈ replayStates p s cs, Reach p s' := by
+  intro cs
+  induction cs with
+  | nil => intro s _ s' h; cases h
+  | cons c cs ih =>
+    intro s h s' hm
+    simp only [replayStates, List.mem_cons] at hm
+    rcases hm with e | hm
+    · subst e; exact exec_reach hp h c
+    · exact ih _ (exec_reach hp h c) s' hm
+
+/-- **progress of a waiter**: a client inside `Obtain` can always attempt, give up, or time passes
+    towards its next attempt/deadline; it is never stuck -/
+theorem trying_progress (p : Params) (s : State) (i : Nat) (m : Mode) (tok na dl : Nat)
+    (hi : s.cl i = .trying m tok na dl) :
+    (na ≤ s.wall ∧ s.wall < dl ∧ Step p s (attempt p s i m tok dl)) ∨
+    (dl ≤ s.wall ∧ Step p s (setCl s i .failed)) ∨
+    (s.wall < na ∧ s.wall < dl ∧ Step p s { s with wall := s.wall + 1 }) := by
+  by_cases h1 : dl ≤ s.wall
+  · exact Or.inr (Or.inl ⟨h1, Step.giveup s i m tok na dl hi h1⟩)
+  · by_cases h2 : na ≤ s.wall
+    · exact Or.inl ⟨h2, by omega, Step.attempt s i m tok na dl hi h2 (by omega)⟩
+    · exact Or.inr (Or.inr ⟨by omega, by omega, Step.tickWall s⟩)
+
+end Eru.Lock.Redis
